@@ -38,7 +38,7 @@ def new_record(tid, spec):
         rec['create'] = {'out': out, 'post': {}, 'micro': []}
         return None, rec
     rec['cfg'] = pk.project_cfg(st, werr=werr, rake=spec.get('rake'),
-                                extra={'deckcards': sorted(pk.card_int(c) for c in st.deck), 'variant': spec['variant'], 'sb': spec.get('sb', 0), 'bb': spec.get('bb', 0), 'deck': games.deck_name(st.deck)})
+                                extra={'deckcards': sorted(pk.card_int(c) for c in st.deck), 'variant': spec['variant'], 'sb': pk.chip(spec.get('sb', 0)), 'bb': pk.chip(spec.get('bb', 0)), 'deck': games.deck_name(st.deck)})
     rec['create'] = {'out': 'ok', 'post': play.observe(st, 0), 'micro': mic}
     return st, rec
 
@@ -321,7 +321,7 @@ def copy_hand(tid, spec, rng, pol, max_after=60):
 def raw_record(tid, st, spec, werr=False):
     """a hand record that is not validated step by step: the final state with its whole operation log"""
     rec = {'tid': tid, 'spec': spec, 'deck0': [], 'steps': [], 'raw': True}
-    rec['cfg'] = pk.project_cfg(st, werr=werr, extra={'deckcards': sorted(pk.card_int(c) for c in st.deck), 'variant': spec.get('variant'), 'sb': spec.get('sb', 0), 'bb': spec.get('bb', 0), 'deck': games.deck_name(st.deck)})
+    rec['cfg'] = pk.project_cfg(st, werr=werr, extra={'deckcards': sorted(pk.card_int(c) for c in st.deck), 'variant': spec.get('variant'), 'sb': pk.chip(spec.get('sb', 0)), 'bb': pk.chip(spec.get('bb', 0)), 'deck': games.deck_name(st.deck)})
     rec['create'] = {'out': 'ok', 'post': play.observe(st, 0), 'micro': []}
     return rec
 
